@@ -178,8 +178,10 @@ func runC14(c *Ctx) {
 		c.Law(o.Err != nil || lenOut == fmt.Sprintf("ok:[I:%d]", len(o.Coll)) || (L == 0), "C14/tochars-count", "s.toChars().count() = s.length()", s, lenOut+fmt.Sprintf(" vs %d chars", len(o.Coll)))
 		o = eval("%s.upper()", r)
 		c.Emit("smap "+hs+" "+caseMap(strings.ToUpper, s), outTokens(o), nt)
+		c.Law(o.Err == nil && (L == 0 || (len(o.Coll) == 1 && o.Coll[0] == system.String(strings.ToUpper(s)))), "C14/upper-lower", "upper() maps every character to its upper-case form", fmt.Sprintf("%q.upper()", s), outTokens(o))
 		o = eval("%s.lower()", r)
 		c.Emit("smap "+hs+" "+caseMap(strings.ToLower, s), outTokens(o), nt)
+		c.Law(o.Err == nil && (L == 0 || (len(o.Coll) == 1 && o.Coll[0] == system.String(strings.ToLower(s)))), "C14/upper-lower", "lower() maps every character to its lower-case form", fmt.Sprintf("%q.lower()", s), outTokens(o))
 		// substring
 		starts := []int64{-2, -1, 2147483647, -2147483648}
 		for k := 0; k <= L+2; k++ {
